@@ -47,6 +47,7 @@ def register(reg):
   register_rules(reg)
   register_sequences(reg)
   register_checkpoints(reg)
+  register_stop(reg)
   for hdr in ('for phase_rec in phase_records',):
     c.loop(hdr, inv=[('none_failed_so_far',
                       'forall_int(lambda j: implies(0 <= j and j < _i, not (%s and (subtest_rec is None or not (self.previous_phases_to_check is %s.SUBTEST) '
@@ -447,3 +448,47 @@ def register_checkpoints(reg):
   c.ensures('skip_recorded_exactly_once', one_record)
   c.ensures('record_describes_a_skip', described + ' and %s.result.phase_result is %s.SKIP' % (rec, PR))
   c.modifies('list(%s)' % cps, 'list(self.test_state.test_record._cached_checkpoints)')
+
+
+# --------------------------------------------------------------------------------------------------------------------
+# C03 / C04: a (single) abort cancels the running phase and re-arms the phase executor inside one critical section of the
+# teardown lock, so a teardown sequence (which runs under that lock) never starts while the stop flag is still set.
+# --------------------------------------------------------------------------------------------------------------------
+def register_stop(reg):
+  import z3
+  from pyvc.state import Obligation
+
+  def under_teardown_lock(what):
+    def hook(ex, st, env, result):
+      if '$stop_force' not in st.ghost:
+        return
+      held = any('_teardown_phases_lock' in l for l in st.locks)
+      ex.ctx.obligations.append(Obligation(
+          '%s/lock.%s_inside_the_teardown_lock_unless_forced' % (ex.ctx.unit, what), 'lock', list(st.pc),
+          z3.Or(st.ghost['$stop_force'].t, z3.BoolVal(held)), '', {'msg': '%s called without _teardown_phases_lock on a non-forced stop' % what}))
+    return hook
+
+  c = reg.contract(PE, 'PhaseExecutor.reset_stop', props=['C03', 'C04'])
+  c.ensures('stop_flag_cleared', 'not self._stopping.is_set()')
+  c.modifies('self._stopping.flag')
+  c.hooks['after_call'] = under_teardown_lock('reset_stop')
+
+  c = reg.contract(PE, 'PhaseExecutor.stop', props=['C03', 'C04'])
+  c.param('timeout_s', 'val{none,int,float}')
+  c.ensures('stop_flag_set', 'self._stopping.is_set()')
+  c.modifies('self._stopping.flag', 'TestState.running_phase_state', 'threading.Thread.alive', 'event.flag')
+  c.trusted('the kill / wait handshake with the phase thread is concurrency (C04 / C12, outside this technique); used here only for its '
+            'sequential effect: the stop flag is set when it returns')
+  c.hooks['after_call'] = under_teardown_lock('stop')
+
+  c = reg.contract(TE, 'TestExecutor._stop_phase_executor', props=['C03', 'C04'])
+  c.param('force', 'bool')
+  def setup(ex, st, made):
+    from pyvc.values import parse_kind
+    made['force'] = ex.make_input(st, 'force', parse_kind('bool'))
+    st.ghost['$stop_force'] = made['force']
+  c.setup(setup)
+  c.ensures('the_stop_flag_is_not_left_set', 'implies(self._phase_exec is not None and self._phase_exec._stopping.is_set(), '
+            'old(self._phase_exec is not None and self._phase_exec._stopping.is_set()))')
+  c.ensures('a_forced_stop_always_rearms', 'implies(force and self._phase_exec is not None, not self._phase_exec._stopping.is_set())')
+  c.modifies('event.flag', 'TestState.running_phase_state', 'threading.Thread.alive')
